@@ -180,8 +180,9 @@ class BlockAnalysis:
                 if want == 2:
                     self.sub = {names[0]: 'left', names[1]: 'right'}
                     mode = [k for k in v.keywords if k.arg == 'mode']
-                    self.ok('block-call', s, mode and isinstance(mode[0].value, ast.Constant) and
-                            mode[0].value.value == 'reduced', 'block QR is the reduced factorisation (intermediate '
+                    # (`mode='reduced'` is the default of np.linalg.qr: leaving it out selects the same factorisation)
+                    self.ok('block-call', s, (not mode and len(v.args) == 1) or
+                            (mode and isinstance(mode[0].value, ast.Constant) and mode[0].value.value == 'reduced'), 'block QR is the reduced factorisation (intermediate '
                             'dimension = min(rows, cols) of the block)')
                 else:
                     self.sub = {names[0]: 'left', names[1]: 'sigma', names[2]: 'right'}
@@ -231,7 +232,9 @@ class BlockAnalysis:
                     f'`{norm(s)}`: the charges to be processed are the intersection of both charge vectors')
             self.qis = name
             return
-        if vt in {f'min({n_}.shape)' for n_ in self.shape_of}:
+        if vt in {f'min({n_}.shape)' for n_ in self.shape_of} | \
+                {t_ for n_ in self.shape_of for t_ in (f'min({n_}.shape[0], {n_}.shape[1])', f'min({n_}.shape[1], {n_}.shape[0])',
+                                                       f'min(*{n_}.shape)', f'np.min({n_}.shape)')}:
             self.maxdim = name
             return
         if isinstance(v, ast.Constant) and v.value == 0:
